@@ -5,24 +5,47 @@ import os
 
 from lib import common
 
-MODULES = []  # filled lazily from props/*.py that define `translate()`
+MODULES = []
+CURRENT = {}  # set by standard_check: the property being checked  # filled lazily from props/*.py that define `translate()`
 
 
 def discover():
     mods = []
     pdir = os.path.join(common.ROOT, "props")
+    try:
+        claimed = set(open(os.path.join(pdir, "CLAIMED")).read().split())
+    except OSError:
+        claimed = set()
     for f in sorted(os.listdir(pdir)):
         if f.endswith(".py") and not f.startswith("_"):
-            m = importlib.import_module("props." + f[:-3])
+            try:
+                m = importlib.import_module("props." + f[:-3])
+            except Exception:
+                # a module still under construction must not break the claimed checks
+                if f[:-3].upper() in claimed:
+                    raise
+                continue
             if hasattr(m, "translate"):
-                mods.append(m)
+                mods.append((f[:-3].upper(), m))
     return mods
 
 
 def run_all():
     log = ""
-    for m in discover():
-        files = m.translate()
+    only = os.environ.get("VERIF_XLATE_ONLY")
+    try:
+        claimed = set(open(os.path.join(common.ROOT, "props", "CLAIMED")).read().split())
+    except OSError:
+        claimed = set()
+    for pid, m in discover():
+        if only and pid != only:
+            continue
+        try:
+            files = m.translate()
+        except Exception:
+            if pid in claimed or pid == CURRENT.get("prop"):
+                raise
+            continue
         for rel, txt in files.items():
             p = os.path.join(common.COQ, "theories", rel)
             if common.write_if_changed(p, txt):
